@@ -168,6 +168,9 @@ func genSkipCase(cfg Config, i int) SkipCase {
 	for m := 0; m < nm; m++ {
 		sm := SkipMethod{Name: fmt.Sprintf("M%d", m), ExactCase: true}
 		k := r.Range(1, 4)
+		if r.Chance(1, 6) {
+			k = r.Range(8, 14) // many patterns on one method: beyond any small-count path
+		}
 		for j := 0; j < k; j++ {
 			if r.Chance(1, 3) {
 				if r.Bool() {
